@@ -887,8 +887,23 @@ func zipSpecArchive(m module.Version, es []gen.ZipArchEntry) (ok bool, why strin
 	return true, ""
 }
 
+// zipCanonicalVersion: "canonical" as documented for module.CanonicalVersion (semver.Canonical
+// plus a preserved "+incompatible"), decided with the SemVer grammar of the C04 oracle and not
+// with the implementation.
+func zipCanonicalVersion(v string) bool {
+	s := specParse(v)
+	if !s.ok {
+		return false
+	}
+	want := s.canonical()
+	if s.build == "+incompatible" {
+		want += "+incompatible"
+	}
+	return want == v
+}
+
 func zipModuleOK(m module.Version) bool {
-	return module.CanonicalVersion(m.Version) == m.Version && module.Check(m.Path, m.Version) == nil
+	return zipCanonicalVersion(m.Version) && module.Check(m.Path, m.Version) == nil
 }
 
 // zipConfined: compared with the listing before, the listing after differs only inside the
